@@ -160,6 +160,7 @@ def dispatchOp (j : Json) : Except String Res := do
   | "statusline" | "ctline" | "locline" | "headers" => jtpLineOp op j
   | "fetchseq" => fetchSeqOp j
   | "webfinger" => webfingerOp j
+  | "wfpar" => wfParOp j
   | "pubworld" => pubWorldOp j
   | "ui" => uiOp j
   | "uistress" => uiStressOp j
